@@ -262,6 +262,7 @@ TRUSTED_X86 = [
 # properties in QUICK_ONLY only the harnesses of the named unit matching the regex stay in quick.
 QUICK_DENY = [
     r"jh_e8::c06_e8_j3_constants$",                                                     # ~9 min: quick runs its six 7-round segments in parallel instead
+    r"groestl_core::c07_(leaf_round512|lemma_submix1024)_part[1357]$",                  # quick: the even column pairs (~200 CPU-s per part), thorough: all
     r"groestl_core::c07_leaf_round512$", r"groestl_core::c07_lemma_submix1024$",      # ~15 min each: AES model with a symbolic S-box
     r"jh_core::wiring::c06_f8_wiring_",                                                 # ~10 min each
     r"blake_core::c04_lemma_round64$", r"blake_core::wiring::c04_put_block512_l[0-3]$",
